@@ -76,7 +76,12 @@ def run(ctx):
     common.install_matid()
     from matid.classification.classifier import Classifier
     import crystals
+    import region_model
+    region_rec = region_model.RegionRecorder(max_records=ctx.n(40, 300), stride=2)
     broken = []
+    terr = common.regen(ctx, ("region_rule",))
+    if terr:
+        broken.append(("translator", terr))
     ok, info = prove(ctx, "MatidProps.C18", THEOREMS)
     if not ok:
         broken.append(("proof", info))
@@ -106,7 +111,7 @@ def run(ctx):
             done += 1
         ctx.count("kind_" + desc["kind"])
         try:
-            with SC.FinderRecorder() as rec:
+            with SC.FinderRecorder() as rec, region_rec:
                 c = Classifier().classify(a)
         except Exception as e:  # noqa
             bad.append({"desc": desc, "complaint": "exception %s: %s" % (type(e).__name__, str(e)[:150]), "atoms": crystals.atoms_to_json(a)})
@@ -135,6 +140,7 @@ def run(ctx):
                     {"kind": "failing-input", "case": b, "how": "Classifier().classify(atoms)"})
     import finder_helpers
     finder_helpers.check(ctx, broken)
+    region_model.check(ctx, broken, region_rec.records)
     if broken and not ctx.unknown_findings():
         ctx.finding("unproved", "conditional theorem no longer checks, no failing structure found", {"kind": "broken-obligation", "broken": broken}, found_input=False)
     ctx.coverage["broken"] = [{"what": k_, "info": i} for k_, i in broken]
